@@ -35,6 +35,7 @@ structure Rec where
   conn : Nat := 0
   sid : Nat := 0
   down : Bool := false
+  adopted : Bool := false
   facts : Option Facts := none
   waitsLeft : Nat := 0
   clients : Nat := 0
@@ -55,7 +56,8 @@ def decodeRec (j : Json) : Except String Rec := do
     | none => none
   pure { t := t, op := getStrD j "op", i := getNatD j "i", res := getStrD j "res",
          kind := getStrD j "kind", dialed := getBoolD j "dialed", conn := getNatD j "conn",
-         sid := getNatD j "sid", down := getBoolD j "down", facts := facts,
+         sid := getNatD j "sid", down := getBoolD j "down", adopted := getBoolD j "adopted",
+         facts := facts,
          waitsLeft := getNatD j "waits_left", clients := getNatD j "clients" }
 
 def decodeOp (j : Json) : Except String OpIn := do
@@ -88,6 +90,7 @@ def parseRes (res kind : String) : Option StartRes :=
   | "err", "register" => some (.err .register)
   | "err", "closed" => some (.err .closed)
   | "err", "configure" => some (.err .configure)
+  | "err", "preconn" => some (.err .preconn)
   | _, _ => none
 
 /-- index of the first record at or after `from` satisfying `p` -/
@@ -108,7 +111,7 @@ def mkObs (op : String) (script : Script) (ret : Rec) : OpObs :=
     else if ret.res == "pending" then .wait false
     else .impossible
   | "lose" => if ret.res == "closed" then .lose ret.conn else .nop
-  | "await" | "pause" => .nop
+  | "await" | "pause" | "plant" => .nop
   | "dispatch" | "update" => .request (ret.res == "ok")
   | _ => .impossible
 
@@ -165,16 +168,30 @@ def feed (rs : Array Rec) (ops : Array OpIn) (n : Nfa) (j : Nat) (r : Rec) : Nfa
     if absorbed then n else
       let cs := n.cfgs.map fun c => { c with s := loseConn r.conn c.s }
       { n with cfgs := closure n.pending (dedup cs) 64 }
+  | "waitret" =>
+    -- a Wait that was observed blocked has returned: one of the blocked calls of the
+    -- configuration, on a session whose doneC is closed
+    let cs := dedup ((n.cfgs.flatMap fun c => (releaseAny c.s).map fun s' => { c with s := s' }))
+    fail { n with cfgs := closure n.pending cs 64 }
+      s!"wait#{r.i} returned late although no blocked Wait of the machine can return here"
   | "end" =>
     if r.res == "complete" then
       let cs := n.cfgs.filter fun c => c.s.inflight.isEmpty && c.s.cur == r.clients && !c.s.started
+        && c.s.waiting.isEmpty
       fail { n with cfgs := cs }
         s!"end: clients={r.clients} onclose={n.onclose}: the machine cannot be quiescent here"
     else n
   | _ => n
 
-def runNfa (rs : Array Rec) (ops : Array OpIn) : Nfa :=
-  (List.range rs.size).foldl (fun n j => feed rs ops n j rs[j]!) { cfgs := [{ s := init, applied := true }] }
+def parseSrc (s : String) : ConnSrc :=
+  match s with
+  | "given" => .given
+  | "env" => .envFd
+  | _ => .dialer
+
+def runNfa (rs : Array Rec) (ops : Array OpIn) (src : ConnSrc) : Nfa :=
+  (List.range rs.size).foldl (fun n j => feed rs ops n j rs[j]!)
+    { cfgs := [{ s := initWith src, applied := true }] }
 
 /-! ### the property, directly on the records -/
 
@@ -240,6 +257,13 @@ def specCheck (rs : Array Rec) (ops : Array OpIn) : Option SpecFail := Id.run do
     -- P2 wait returns
     if r.t == "ret" && r.op == "wait" && r.res == "blocked" then
       return some ⟨"C16:blocked:wait", s!"wait#{r.i} did not return although the stub had observably stopped"⟩
+    -- P2' a Wait observed blocked must be seen to return (before the end of the history,
+    -- which always stops the stub)
+    if r.t == "ret" && r.op == "wait" && r.res == "pending" then
+      let later := (rs.toList.drop j).any fun x => x.t == "waitret" && x.i == r.i
+      let complete := rs.toList.any fun x => x.t == "end" && x.res == "complete"
+      if complete && !later then
+        return some ⟨"C16:blocked:wait", s!"wait#{r.i} blocked and never returned, although the stub was stopped afterwards"⟩
     -- P4 restartable
     if r.t == "ret" && r.op == "start" then
       let callIdx := (findFrom rs 0 fun x => x.t == "call" && x.op == "start" && x.i == r.i).getD j
@@ -294,11 +318,12 @@ def judgeHist (inp obs : Json) : Except String Verdict := do
   let recsJ ← getArr obs "recs"
   let recs ← recsJ.mapM decodeRec
   let rs := recs.toArray
-  let nfa := runNfa rs opsA
+  let src := parseSrc (getStrD inp "src")
+  let nfa := runNfa rs opsA src
   let agree := nfa.failedAt.isNone && !nfa.cfgs.isEmpty
   let sf := specCheck rs opsA
   -- coverage
-  let mut cover : List String := ["trace", "stream:" ++ stream]
+  let mut cover : List String := ["trace", "stream:" ++ stream, "src:" ++ (let x := getStrD inp "src"; if x == "" then "dialer" else x)]
   let mut lateNotify := false
   for j in [0:rs.size] do
     let r := rs[j]!
@@ -315,6 +340,9 @@ def judgeHist (inp obs : Json) : Except String Verdict := do
       let (live, _) := expectedLive rs j
       if live != 0 && live != r.sid && r.sid < live then lateNotify := true
     if r.t == "end" then cover := cover ++ [s!"end:{r.res}"]
+    if r.t == "waitret" then cover := cover ++ ["wait:late-return"]
+    if r.t == "ret" && r.op == "start" && r.adopted then cover := cover ++ ["start:adopted-foreign-socket"]
+    if r.t == "ret" && r.op == "plant" then cover := cover ++ [s!"plant:{r.res}"]
   if lateNotify then cover := cover ++ ["notify:late-while-later-session-live"]
   let starts := ops.filter (·.op == "start") |>.length
   let ends := ops.filter (fun o => o.op == "stop" || o.op == "lose") |>.length
